@@ -239,7 +239,11 @@ class Scrollable(WidgetDecoration[WrappedWidget]):
             canv.pad_trim_top_bottom(0, fill_height)
 
         if canv_cols <= maxcol and canv_rows <= maxrow:
-            # Canvas is small enough to fit without trimming
+            # Canvas is small enough to fit without trimming: nothing is scrolled,
+            # pending scroll requests are void and the whole widget is in view
+            self._trim_top = 0
+            self._scroll_action = None
+            self._forward_keypress = True if canv_full.cursor is not None else ow.selectable()
             return canv
 
         self._adjust_trim_top(canv, size)
